@@ -97,6 +97,7 @@ import Nexus.L2.Proofs.BrokerBase
 import Nexus.L2.Proofs.RealmPublish
 import Nexus.L2.Proofs.WpARealm
 import Nexus.L2.Proofs.WpABkC01
+import Nexus.L2.Proofs.RealmKeys
 
 namespace Nexus.C01
 open Nexus.L2 Gen.N
@@ -569,13 +570,30 @@ open Realm in
 /-- In every reachable realm the broker satisfies `BrokerInv` (so `C01_delivery_exact`,
     `C01_subscribe_stable_id`, `C01_unsub_others_untouched` apply to `r.broker`), the session table
     `r.session?` is coherent (so `C01_expected_coherent` applies), and every member of every
-    subscription is an attached client, found in the client table and in the session table under its
-    own key: "the sessions that hold a subscription" are all attached sessions of this realm. -/
+    subscription is an attached client — not the meta session — found under its own key, as ONE AND THE
+    SAME record, in the client table and in the session table: "the sessions that hold a subscription"
+    are all attached sessions of this realm.  (The former double statement — some client record and
+    some session record — collapses: no client is stored under the meta session's key in a reachable
+    realm, so `session?` and `client?` agree on every client key, `Realm.Reachable.session?_of_client?`.) -/
 theorem C01_reachable_realm {cfg : Config} {r : Realm} (h : Realm.Reachable cfg r) :
     BrokerInv r.broker ∧ SessCoherent r.session? ∧
     ∀ s ∈ r.broker.subs, ∀ k ∈ s.members,
-      (∃ c, r.client? k = some c ∧ c.key = k) ∧ (∃ c, r.session? k = some c ∧ c.key = k) :=
-  WpA.reachable_realm h
+      k ≠ metaKey ∧ ∃ c ∈ r.clients, c.key = k ∧ r.client? k = some c ∧ r.session? k = some c := by
+  obtain ⟨h1, h2, h3⟩ := WpA.reachable_realm h
+  refine ⟨h1, h2, fun s hs k hk => ?_⟩
+  obtain ⟨⟨c, hc, hck⟩, _⟩ := h3 s hs k hk
+  exact ⟨h.client?_ne_meta hc, c, (client?_mem hc).1, hck, hc, h.session?_of_client? hc⟩
+
+open Realm in
+/-- the two tables of a reachable realm: on every key but the meta session's `session?` is `client?`; the
+    client table has nothing under the meta session's key; client keys are pairwise distinct, so every
+    attached client is found under its own key in both tables -/
+theorem C01_reachable_tables {cfg : Config} {r : Realm} (h : Realm.Reachable cfg r) :
+    (∀ k, k ≠ metaKey → r.session? k = r.client? k) ∧ r.client? metaKey = none ∧
+    r.session? metaKey = some r.metaS ∧
+    (∀ c ∈ r.clients, c.key ≠ metaKey ∧ r.client? c.key = some c ∧ r.session? c.key = some c) :=
+  ⟨fun k => (h.session?_eq k).1, (h.session?_eq metaKey).2.1, (h.session?_eq metaKey).2.2,
+   fun c hc => ⟨h.metaSafe.noClient c hc, h.find?_client hc, h.session?_client hc⟩⟩
 
 /-- a concrete reachable realm: history on prefix "a.", session 1 attached and subscribed to "a.b" -/
 def exCfg : Config := { history := [("a.", "prefix", 2)] }
@@ -686,7 +704,7 @@ theorem C01_publish_reachable {cfg : Config} {r : Realm} (h : Realm.Reachable cf
         through (r.broker.syncPublish r.session? r.now (pubOf r s opts topic args kw)).2 k' id = []) ∧
     (∀ k', (¬ ∃ s' c, Expected r.broker r.session? (pubOf r s opts topic args kw) s' k' c) →
         ∀ x ∈ (r.broker.syncPublish r.session? r.now (pubOf r s opts topic args kw)).2, x.to ≠ k') ∧
-    (∀ k' c, k' ≠ metaKey → r.client? k' = some c →
+    (∀ k' c, r.client? k' = some c →
       (r.stepOp (.msg k (.publish req opts topic args kw))).queueOf k' =
         accept c.cap (r.queueOf k')
           (msgsTo k' ((r.broker.syncPublish r.session? r.now (pubOf r s opts topic args kw)).2 ++
@@ -713,10 +731,11 @@ theorem C01_publish_reachable {cfg : Config} {r : Realm} (h : Realm.Reachable cf
   · intro s' k' c
     exact C01_expected_coherent hco _ s' k' c
   · intro s' hs' k' hk'
-    exact (hmem s' hs' k' hk').2
-  · intro k' c hk' hc'
+    obtain ⟨_, c, _, hck, _, hcs⟩ := hmem s' hs' k' hk'
+    exact ⟨c, hcs, hck⟩
+  · intro k' c hc'
     rw [hstep]
-    exact a3 k' c hk' hc'
+    exact a3 k' c (h.client?_ne_meta hc') hc'
 
 open Realm in
 /-- non-vacuity of the remaining hypotheses for the example realm -/
